@@ -467,8 +467,9 @@ fn deep(sink: &mut Sink, thorough: bool) {
     for depth in 1..=maxd {
         for shape in 0..4 {
             for leaf in 1..=2usize {
-                // quick tier: one leaf size per (depth, shape), shape 3 at every fourth depth
-                if !thorough && (leaf != 1 + (depth + shape) % 2 || (shape == 3 && depth % 4 != 0)) { continue; }
+                // quick tier (thorough: beyond depth 44): one leaf size per (depth, shape), shape 3 at every fourth depth
+                let sparse = !thorough || depth > 44;
+                if sparse && (leaf != 1 + (depth + shape) % 2 || (shape == 3 && depth % 4 != 0)) { continue; }
                 let sib = (depth + shape + leaf) % 3 == 0;
                 let p = deep_prog(depth, shape, leaf, sib);
                 let c = Case::new(&p);
@@ -476,6 +477,7 @@ fn deep(sink: &mut Sink, thorough: bool) {
                 for ind in INDENTS { emit_serp(sink, &c, ind); }
                 for (k, ind) in DEEP_INDENTS.iter().enumerate() {
                     if k == 2 && !(depth <= 3 || depth % 16 >= 15 || depth % 16 <= 1 || depth == maxd) { continue; }
+                    if k == 1 && depth > 44 && depth % 4 != 2 && depth != maxd { continue; }
                     emit_serp(sink, &c, ind);
                 }
                 if depth % 8 == 0 { emit_serbufs(sink, &c, Some(b"  ")); emit_serbufs(sink, &c, Some(b"")); }
